@@ -158,7 +158,9 @@ fn classify_cl(cfg: &[&str], n: usize) -> (ClClass, Vec<String>) {
     for (t, v) in cfg.iter().zip(&vals) {
         match *t {
             "N" | "M" | "0" | "18446744073709551615" | "4294967296" | "9223372036854775807" | "9223372036854775808" => nums.push(v.parse::<u64>().unwrap()),
-            "+N" | "0N" | "N, N" | "N, " => {
+            // (a leading zero is still 1*DIGIT: `05` is the number 5, next to a `5` it is the same value again)
+            "0N" => nums.push(n as u64),
+            "+N" | "N, N" | "N, " => {
                 ambiguous = true;
                 nums.push(n as u64);
             }
